@@ -36,6 +36,8 @@ pub struct Dir {
     pub raw: Vec<u8>,
     pub parse_pos: usize,
     pub nframes: usize,
+    /// end offsets (in `raw`) of the complete frames the writer produced
+    pub frame_ends: Vec<usize>,
     pub new_frames: Vec<usize>,
     pub w_inner_pending: bool,
     pub wout: usize,
@@ -127,8 +129,25 @@ impl Dir {
             }
             let f = rest[..2 + al].to_vec();
             self.parse_pos += 2 + al;
+            self.frame_ends.push(self.parse_pos);
             self.on_frame(f);
         }
+    }
+    /// First frame (writer's numbering, 1-based) whose bytes the reader does not see unchanged:
+    /// position of the first difference between the stream as written and as released to the
+    /// reader; 0 if the attack changed nothing; number of frames + 1 for bytes appended at the end.
+    pub fn first_affected_frame(&self) -> usize {
+        if self.plan.kind == "none" {
+            return 0;
+        }
+        let a = &self.raw[..self.parse_pos];
+        let b = &self.rstream;
+        let n = a.len().min(b.len());
+        let p = (0..n).find(|&i| a[i] != b[i]).unwrap_or(n);
+        if p == a.len() && p == b.len() {
+            return 0;
+        }
+        self.frame_ends.iter().position(|e| *e > p).map(|j| j + 1).unwrap_or(self.frame_ends.len() + 1)
     }
     /// bytes of an incomplete frame sitting on the wire
     pub fn partial(&self) -> usize {
